@@ -414,6 +414,9 @@ func rlDeadline(kind string) []rlCfg {
 			"recv c0", "adv " + just, "adv 1us", "conngated", "req p1 1", "req p1 1", "req p1 1", "recv c0", "send c0", "recv c0", "send c0", "recv c1", "send c1",
 			"adv " + just, "adv 1us", "release p1", "req p1 1", "recv c0", "send c0", "adv " + d.String()}})
 	}
+	// best effort together with a send deadline: best effort wins - the reply is dropped at once, not after the deadline
+	out = append(out, rlCfg{Kind: kind, Opts: []rlCtxOpt{{BestEffort: true, SendExp: 2 * time.Second}}, TTL: 8, SQ: 1, RQ: 4, Steps: []string{
+		"conngated", "req p1 1", "req p1 1", "req p1 1", "req p1 1", "recv c0", "send c0", "recv c0", "send c0", "recv c0", "send c0", "recv c0", "send c0", "adv 1.999999s", "adv 1us", "adv 1s", "release p1"}})
 	out = append(out, rlCfg{Kind: kind, Opts: []rlCtxOpt{{BestEffort: true}}, TTL: 8, SQ: 1, RQ: 4, Steps: []string{
 		"conngated", "req p1 1", "req p1 1", "req p1 1", "req p1 1", "recv c0", "send c0", "recv c0", "send c0", "recv c0", "send c0", "recv c0", "send c0", "adv 1s", "release p1"}})
 	return out
